@@ -245,9 +245,22 @@ def strptimeEnv (s : Bytes) : Option (Model.Tm × Bytes) :=
 def zoneEnv (now : Int) (name : Bytes) : Option Int :=
   some ((zoneFFI (ba name) now.toNat.toUInt64).toNat - 2147483648 : Int)
 
+/-- The value of `exec(argv, -1)` for the programs the unit harness knows: `true`, `false`, and the injectable outcomes
+`vstatus:...` of harness/unit/h_expr.c, mapped by the transcription of `exec()`'s status handling (`Model.execValue`:
+/dev/null opened, the result of `fork`, the result of `waitpid` as a raw wait status); every other name is a program that
+does not exist (the child's `execvp` fails and it exits with 127). -/
 def commandOracle (argv : List Bytes) : Int :=
+  let exited (code : Nat) : Int := Model.execValue true (.ok 1) (.ok (code % 256 * 256))
+  let num (b : Bytes) : Nat := ((String.ofList (b.map fun c => Char.ofNat c.toNat)).toNat?).getD 0
   match argv with
-  | a :: _ => if a == ofString "true" then 0 else if a == ofString "false" then 1 else -1
+  | a :: _ =>
+    if a == ofString "true" then exited 0
+    else if a == ofString "false" then exited 1
+    else if (ofString "vstatus:exit:").isPrefixOf a then exited (num (a.drop 13))
+    else if (ofString "vstatus:signal:").isPrefixOf a then Model.execValue true (.ok 1) (.ok (num (a.drop 15) % 128))
+    else if a == ofString "vstatus:fork" then Model.execValue true (.err "EAGAIN") (.ok 0)
+    else if a == ofString "vstatus:waitpid" then Model.execValue true (.ok 1) (.err "ECHILD")
+    else exited Model.execvpFailedStatus      -- vstatus:errno:E and every unknown name: execvp fails in the child
   | [] => -1
 
 def subDump (s : Model.Sub) : String :=
